@@ -26,6 +26,7 @@ Act == \/ IsEvent("Connect") /\ Connect(E.c)
        \/ IsEvent("AuthRace") /\ AuthRace(E.c)
        \/ IsEvent("AuthRaceRm") /\ AuthRaceRm(E.c, E.x)
        \/ IsEvent("Chat") /\ Chat(E.c)
+       \/ IsEvent("Strangers") /\ Strangers
        \/ IsEvent("Beacon") /\ Beacon(E.c)
        \/ IsEvent("Register") /\ Register(E.c)
        \/ IsEvent("AddLsn") /\ AddLsn(E.c)
